@@ -6,7 +6,7 @@ usage: stages.py <patch.diff> [...]      prints per patch the refuted / undecide
 """
 import json, os, shutil, subprocess, sys, tempfile
 VERIF = os.path.dirname(os.path.dirname(os.path.abspath(__file__)))
-STAGES = ['floatform', 'cmpstage', 'digits', 'hour12', 'numparse', 'lexaccept', 'weekglue']
+STAGES = ['floatform', 'cmpstage', 'digits', 'hour12', 'numparse', 'lexaccept', 'weekglue', 'names']
 
 
 def sh(cmd, cwd=None, env=None):
